@@ -218,7 +218,7 @@ PATHO = ["xx:J:" + "[" * 1500 + "]" * 1500, "xx:J:" + "{\"a\":" * 1200 + "1" + "
 def mutate_text(r, text, k):
     lines = text.split("\n")
     for _ in range(k):
-        m = r.randrange(14)
+        m = r.randrange(15)
         if not lines:
             lines = [""]
         i = r.randrange(len(lines))
@@ -323,6 +323,13 @@ def mutate_text(r, text, k):
                     el = el[:1]
                 f[j] = sep.join(el)
             ln = "\t".join(f)
+        elif m == 14 and any(c.isdigit() for c in ln):
+            # a digit becomes a character that only LOOKS like a number to str.isdigit(), to \d or to int():
+            # superscripts, circled and subscript digits, decimal digits of other scripts, a minus sign, an underscore
+            ps = [j for j, c in enumerate(ln) if c.isdigit()]
+            p = gen.choice(r, ps)
+            c = gen.choice(r, ["\u00b2", "\u00b9", "\u2460", "\u2082", "\u0663", "\uff15", "\u0967", "_", "\u2212", " "])
+            ln = (ln[:p] + c + ln[p + 1:]) if gen.chance(r, 0.5) else (ln[:p + 1] + c + ln[p + 1:])
         elif m == 13:  # a further tag of pathological size (deep nesting, thousands of digits or elements)
             ln = ln + "\t" + gen.choice(r, PATHO)
         elif m == 11:  # an odd identifier in the name field
@@ -401,6 +408,18 @@ def st_mutant_case(draw):
         sfx = "+" if k_ == "O" else ""
         base = "S\ta\t10\t*\n%s\tg0\ta%s\n" % (k_, sfx) + "\n".join("%s\tg%d\tg%d%s" % (k_, i, i - 1, sfx) for i in range(1, 1500))
         return {"text": base, "as": "doc", "cfg": dict(st_cfg(r), dialect=None, version=None)}
+    if gen.fair(r, 0.06):
+        # the rGFA dialect: a document of that subset with one of its rules broken (or none), read as rGFA, so that
+        # every dialect-specific test is reached; then the usual point mutations, or none
+        from . import c04
+        f_, _want = c04.RGFA_MUT[gen.choice(r, sorted(c04.RGFA_MUT))]
+        lines_ = f_(list(c04.RGFA_BASE))
+        if gen.chance(r, 0.5):
+            r.shuffle(lines_)
+        text = "\n".join(lines_)
+        if gen.chance(r, 0.4):
+            text = mutate_text(r, text, 1)
+        return {"text": text, "as": "doc", "cfg": dict(st_cfg(r), dialect="rgfa", version=gen.choice(r, [None, "gfa1"]))}
     if gen.chance(r, 0.35):
         base = gen.choice(r, testdata())
     else:
